@@ -53,6 +53,12 @@ func runC05(c *Ctx) {
 					if ob.Pkg() == sp.Types && !ob.Exported() && isSanSig(ob.Type()) {
 						sanitizers[ob.Name()] = true
 					}
+					// a selector function (property name → sanitiser): the sanitisers it can return
+					if sig, _ := ob.Type().(*types.Signature); ob.Pkg() == sp.Types && sig != nil && sig.Results().Len() == 1 && isSanSig(sig.Results().At(0).Type()) && depth < 2 {
+						if sel := findFunc(sp, "", ob.Name()); sel != nil && sel.Body != nil {
+							addFrom(sel.Body, depth+1)
+						}
+					}
 				case *types.Var:
 					if ob.Pkg() == sp.Types && ob.Parent() == sp.Types.Scope() && depth < 2 {
 						if init := pkgVarInit(sp, ob.Name()); init != nil {
@@ -390,16 +396,7 @@ func runC05(c *Ctx) {
 			if sk.File == nil || !strings.Contains(sk.Src, "SanitizeStyleAttributeValues") {
 				continue
 			}
-			direct := false
-			for _, nd := range gf.Tree {
-				if e, ok := nd.(Emit); ok {
-					for _, pp := range e.Parts {
-						if pp.Kind == PConst && strings.Contains(pp.Const, "SanitizeStyleAttributeValues") {
-							direct = true
-						}
-					}
-				}
-			}
+			direct := emitsConst(gf.Tree, "SanitizeStyleAttributeValues")
 			if !direct {
 				continue
 			}
@@ -488,14 +485,71 @@ func runC05(c *Ctx) {
 				tv, ok := info.Types[ast.Unparen(e)]
 				return ok && tv.Value != nil
 			}
-			sanitisedName := func(e ast.Expr, env map[types.Object]ast.Expr) bool {
-				x := den.deref(e, env)
-				if call := isCallTo(x, "SanitizeCSSProperty"); call != nil && len(call.Args) == 1 {
-					if id, ok := ast.Unparen(call.Args[0]).(*ast.Ident); ok && info.ObjectOf(id) == prms[0] {
-						return true
+			// what counts as the sanitised name: SanitizeCSSProperty(<name>) — or result k of the helper h(<name>) when
+			// SanitizeCSSProperty itself is nothing but `return h(<name>)[k]` (the exported function and its caller share
+			// the helper that does the checking)
+			type producer struct {
+				fn string
+				k  int
+			}
+			producers := map[producer]bool{{"SanitizeCSSProperty", 0}: true}
+			resultOf := func(dn *denum, e ast.Expr, env map[types.Object]ast.Expr) (*ast.CallExpr, int) {
+				x := dn.deref(e, env)
+				k := 0
+				if ix, ok := x.(*ast.IndexExpr); ok && ix.Lbrack == token.NoPos {
+					if bl, ok := ix.Index.(*ast.BasicLit); ok {
+						x, k = ast.Unparen(ix.X), int(bl.Value[0]-'0')
 					}
 				}
-				return false
+				call, _ := x.(*ast.CallExpr)
+				return call, k
+			}
+			if pfd := findFunc(sp, "", "SanitizeCSSProperty"); pfd != nil && len(pfd.Type.Params.List) == 1 && len(pfd.Type.Params.List[0].Names) == 1 {
+				pden := &denum{info: info, pkg: sp.Types, inits: map[types.Object]ast.Expr{}, limit: 5000}
+				pden.finish(pden.run(pfd.Body.List, []dstate{{env: map[types.Object]ast.Expr{}}}))
+				pprm := info.Defs[pfd.Type.Params.List[0].Names[0]]
+				var only *producer
+				same := pden.undecided == "" && len(pden.paths) > 0
+				for _, pth := range pden.paths {
+					if pth.Ret == nil || len(pth.Ret.Results) != 1 {
+						same = false
+						break
+					}
+					call, k := resultOf(pden, pth.Ret.Results[0], pth.Env)
+					fn := (*types.Func)(nil)
+					if call != nil {
+						fn = calleeOf(info, call)
+					}
+					if fn == nil || fn.Pkg() != sp.Types || len(call.Args) != 1 {
+						same = false
+						break
+					}
+					if id, ok := ast.Unparen(call.Args[0]).(*ast.Ident); !ok || info.ObjectOf(id) != pprm {
+						same = false
+						break
+					}
+					pr := producer{fn.Name(), k}
+					if only != nil && *only != pr {
+						same = false
+						break
+					}
+					only = &pr
+				}
+				if same && only != nil {
+					producers[*only] = true
+				}
+			}
+			sanitisedName := func(e ast.Expr, env map[types.Object]ast.Expr) bool {
+				call, k := resultOf(den, e, env)
+				if call == nil || len(call.Args) != 1 {
+					return false
+				}
+				fn := calleeOf(info, call)
+				if fn == nil || fn.Pkg() != sp.Types || !producers[producer{fn.Name(), k}] {
+					return false
+				}
+				id, ok := ast.Unparen(call.Args[0]).(*ast.Ident)
+				return ok && info.ObjectOf(id) == prms[0]
 			}
 			for _, pth := range den.paths {
 				if pth.Ret == nil || len(pth.Ret.Results) != 2 {
@@ -809,6 +863,11 @@ func evalRuneCond(info *types.Info, e ast.Expr, rv types.Object, r rune) (bool, 
 // pieces, every way through one iteration that does not reject (return a constant) must have taken such an atom on
 // the piece. The arrangement of the tests (if/else, early return, helper predicates, flags) does not matter.
 func passThroughValidated(c *Ctx, p *packages.Package, fd *ast.FuncDecl, regexVars map[string]string, nQuoted *int) {
+	passThroughValidatedAt(c, p, fd, regexVars, nQuoted, 0, 0)
+}
+
+// passThroughValidatedAt: … for result resIdx of fd (a helper returning (value, ok) is judged on its value).
+func passThroughValidatedAt(c *Ctx, p *packages.Package, fd *ast.FuncDecl, regexVars map[string]string, nQuoted *int, resIdx, depth int) {
 	info := p.TypesInfo
 	key := funcKey(p, fd)
 	if len(fd.Type.Params.List) != 1 || len(fd.Type.Params.List[0].Names) != 1 {
@@ -820,6 +879,56 @@ func passThroughValidated(c *Ctx, p *packages.Package, fd *ast.FuncDecl, regexVa
 	for _, f := range allFuncDecls(p) {
 		if f != fd {
 			decls[info.Defs[f.Name]] = f
+		}
+	}
+	// a sanitiser that is `return driver(v, pred, …)` — a package-local driver given declared predicates — is the
+	// driver specialised to those predicates: for the analysis the driver's function-typed parameters denote the
+	// functions handed in at this call (restored afterwards: another sanitiser hands in other ones)
+	if len(fd.Body.List) == 1 {
+		if ret, ok := fd.Body.List[0].(*ast.ReturnStmt); ok && len(ret.Results) == 1 {
+			if call, ok := ast.Unparen(ret.Results[0]).(*ast.CallExpr); ok && len(call.Args) >= 2 && !call.Ellipsis.IsValid() {
+				if drv := decls[calleeOf(info, call)]; drv != nil && drv.Body != nil && drv.Recv == nil {
+					var prms []*ast.Ident
+					for _, pl := range drv.Type.Params.List {
+						prms = append(prms, pl.Names...)
+					}
+					a0, isID := ast.Unparen(call.Args[0]).(*ast.Ident)
+					bound := map[types.Object]*types.Func{}
+					ok := isID && info.ObjectOf(a0) == param && len(prms) == len(call.Args)
+					for i := 1; ok && i < len(call.Args); i++ {
+						var fn *types.Func
+						switch a := ast.Unparen(call.Args[i]).(type) {
+						case *ast.Ident:
+							fn, _ = info.Uses[a].(*types.Func)
+						}
+						if _, isSig := info.Defs[prms[i]].Type().Underlying().(*types.Signature); !isSig || fn == nil || decls[fn] == nil {
+							ok = false
+							break
+						}
+						bound[info.Defs[prms[i]]] = fn
+					}
+					if ok {
+						var restore []*ast.Ident
+						var was []types.Object
+						ast.Inspect(drv.Body, func(n ast.Node) bool {
+							if id, isID := n.(*ast.Ident); isID {
+								if fn := bound[info.Uses[id]]; fn != nil {
+									restore, was = append(restore, id), append(was, info.Uses[id])
+									info.Uses[id] = fn
+								}
+							}
+							return true
+						})
+						defer func() {
+							for i, id := range restore {
+								info.Uses[id] = was[i]
+							}
+						}()
+						delete(decls, info.Defs[drv.Name])
+						fd, param = drv, info.Defs[prms[0]]
+					}
+				}
+			}
 		}
 	}
 	// viewRoot: the variable e is a view of
@@ -970,17 +1079,24 @@ func passThroughValidated(c *Ctx, p *packages.Package, fd *ast.FuncDecl, regexVa
 				r = ast.Unparen(call.Args[0])
 			}
 		}
-		id, ok := r.(*ast.Ident)
-		if !ok {
-			return false
-		}
-		ob := info.ObjectOf(id)
-		if ob == param {
-			return true
-		}
-		if b, ok := env[ob]; ok && !refersTo(info, b, ob) {
-			if bid, ok := ast.Unparen(b).(*ast.Ident); ok && info.ObjectOf(bid) == param {
+		for i := 0; i < 4; i++ {
+			id, ok := r.(*ast.Ident)
+			if !ok {
+				return false
+			}
+			ob := info.ObjectOf(id)
+			if ob == param {
 				return true
+			}
+			b, ok := env[ob]
+			if !ok || refersTo(info, b, ob) {
+				return false
+			}
+			r = ast.Unparen(b)
+			if call, ok := r.(*ast.CallExpr); ok && len(call.Args) == 1 {
+				if fn := calleeOf(info, call); fn != nil && (fullName(fn) == "strings.ToLower" || fullName(fn) == "strings.ToUpper") {
+					r = ast.Unparen(call.Args[0])
+				}
 			}
 		}
 		return false
@@ -1024,8 +1140,29 @@ func passThroughValidated(c *Ctx, p *packages.Package, fd *ast.FuncDecl, regexVa
 		return true
 	})
 	npass := 0
+	delegated := map[*ast.FuncDecl]int{}
 	for _, pth := range den.paths {
-		if pth.Ret == nil || len(pth.Ret.Results) != 1 || !isPassThrough(pth.Ret.Results[0], pth.Env) {
+		if pth.Ret != nil && len(pth.Ret.Results) > resIdx && !isPassThrough(pth.Ret.Results[resIdx], pth.Env) {
+			// what is returned is result k of a package-local helper given the input: the helper is judged in its place
+			x := den.deref(pth.Ret.Results[resIdx], pth.Env)
+			k := 0
+			if ix, ok := x.(*ast.IndexExpr); ok && ix.Lbrack == token.NoPos {
+				if bl, ok := ix.Index.(*ast.BasicLit); ok {
+					x, k = ast.Unparen(ix.X), int(bl.Value[0]-'0')
+				}
+			}
+			if call, ok := x.(*ast.CallExpr); ok && len(call.Args) == 1 && depth < 2 {
+				if h := decls[calleeOf(info, call)]; h != nil && h.Body != nil && h.Recv == nil && len(h.Type.Params.List) == 1 && len(h.Type.Params.List[0].Names) == 1 {
+					if id, ok := ast.Unparen(call.Args[0]).(*ast.Ident); ok && info.ObjectOf(id) == param {
+						if _, seen := delegated[h]; !seen {
+							delegated[h] = k
+							passThroughValidatedAt(c, p, h, regexVars, nQuoted, k, depth+1)
+						}
+					}
+				}
+			}
+		}
+		if pth.Ret == nil || len(pth.Ret.Results) <= resIdx || !isPassThrough(pth.Ret.Results[resIdx], pth.Env) {
 			continue
 		}
 		npass++
@@ -1321,7 +1458,7 @@ func cssSanitiserReturns(c *Ctx, tp *packages.Package, fd *ast.FuncDecl, depth i
 		if be, ok := e.(*ast.BinaryExpr); ok && be.Op == token.ADD && !usesValue(be) {
 			vx, dx := classify(be.X, at, seen)
 			vy, dy := classify(be.Y, at, seen)
-			for _, v := range []string{"bad", "foreign"} {
+			for _, v := range []string{"bad", "foreign", "raw"} {
 				if vx == v {
 					return vx, dx
 				}
@@ -1339,6 +1476,10 @@ func cssSanitiserReturns(c *Ctx, tp *packages.Package, fd *ast.FuncDecl, depth i
 			return "sanitised", ""
 		}
 		if call, ok := e.(*ast.CallExpr); ok {
+			// the sanitised property name
+			if fn := calleeOf(info, call); fn != nil && fullName(fn) == modPath+"/safehtml.SanitizeCSSProperty" && !usesValue(call) {
+				return "sanitised", ""
+			}
 			// conversion
 			if tv, ok := info.Types[call.Fun]; ok && tv.IsType() && len(call.Args) == 1 {
 				if !usesValue(call.Args[0]) {
@@ -1380,6 +1521,16 @@ func cssSanitiserReturns(c *Ctx, tp *packages.Package, fd *ast.FuncDecl, depth i
 								rhs = as.Rhs[i]
 							}
 							v, d := classify(rhs, as, seen)
+							if ta, isTA := ast.Unparen(rhs).(*ast.TypeAssertExpr); isTA && v == "raw" && ta.Type != nil && i == 0 {
+								// safe, ok := any(value).(SafeCSSProperty): the value itself, to be judged where it is returned (a
+								// return outside the branch that tests ok is not guarded)
+								if nt, isNamed := info.TypeOf(ta.Type).(*types.Named); isNamed && nt.Obj().Name() == "SafeCSSProperty" && nt.Obj().Pkg() == tp.Types {
+									if verdict == "" {
+										verdict, detail = "raw", ""
+									}
+									continue
+								}
+							}
 							if v == "raw" {
 								v, d = "bad", "the value is stored unsanitised in "+ob.Name()+" and returned later"
 							}
